@@ -49,6 +49,7 @@ class Context:
         self.analysed: dict = {}
         self.exhaustive = False
         self.extra: dict = {}
+        self.floor_failures: list[str] = []
         self._resolver = None
         self.t0 = time.time()
 
@@ -82,7 +83,9 @@ class Context:
     def floor(self, rule: str, what: str, found: int, floor: int) -> None:
         """Guard against vacuous passes: fewer matched anchors than confirmed by hand."""
         if found < floor:
-            raise AnalysisError(
+            # deferred: a genuine violation found by another rule takes precedence (exit 1);
+            # with no violation the run is reported as analysis-broken (exit 2), never a pass
+            self.floor_failures.append(
                 f"anchor-vanished: rule {self.prop}/{rule} matched {found} {what}, expected at least {floor}"
             )
 
@@ -198,4 +201,8 @@ def finish(ctx: Context) -> int:
         print(f"  {rid}: {d['held']}/{d['instances']} held -- {d['text']}")
     for ln in lines:
         print(ln)
-    return 1 if unknown else 0
+    for ff in ctx.floor_failures:
+        print(f"{'NOTE' if unknown else 'ANALYSIS-ERROR'} {ctx.prop}: {ff}")
+    if unknown:
+        return 1
+    return 2 if ctx.floor_failures else 0
